@@ -109,7 +109,7 @@ func mergeMappings(mapping map[string]any, other map[string]any, p tree.Path) (m
 	}
 	for k, v := range other {
 		e, ok := mapping[k]
-		if !ok || strings.HasPrefix(k, "x-") {
+		if !ok || isExtension(k, p) {
 			mapping[k] = v
 			continue
 		}
@@ -333,4 +333,30 @@ func copyMap(m map[string]any) map[string]any {
 
 func override(_ any, other any, _ tree.Path) (any, error) {
 	return other, nil
+}
+
+// userDefinedKeys are the mappings whose keys are names chosen by the user: a service or a
+// volume can be named `x-foo`, it is not an extension
+var userDefinedKeys = []tree.Path{
+	"services",
+	"services.*.depends_on",
+	"services.*.networks",
+	"volumes",
+	"networks",
+	"secrets",
+	"configs",
+}
+
+// isExtension reports whether key k of the mapping found at path p is an `x-` extension,
+// replaced as a whole, and not merged, by an override
+func isExtension(k string, p tree.Path) bool {
+	if !strings.HasPrefix(k, "x-") {
+		return false
+	}
+	for _, uk := range userDefinedKeys {
+		if p.Matches(uk) {
+			return false
+		}
+	}
+	return true
 }
